@@ -350,6 +350,22 @@ var c14Files = []string{"a.fga", "b.fga", "dir/c.fga", "my file.fga", "x #1.fga"
 
 func c14Draw(rt *rapid.T) c14Input {
 	m := gen.DSLModel(rt, gen.DSLOpts{Rich: rapid.Bool().Draw(rt, "rich"), Conditions: true, MultiLine: true, MaxTypes: 5, MaxRels: 5})
+	if rapid.IntRange(0, 7).Draw(rt, "bigType") == 0 {
+		// a type with 13..40 relations whose names do not come grouped (sorts that are only stable, or only correct,
+		// below a size threshold), and many conditions with many parameters
+		td := gen.TypeDef{Name: "big-type"}
+		n := rapid.IntRange(13, 40).Draw(rt, "bigN")
+		step := rapid.SampledFrom([]int{7, 11, 17, 23}).Draw(rt, "bigStep")
+		for i := 0; i < n; i++ {
+			td.Rels = append(td.Rels, gen.Relation{Name: fmt.Sprintf("r%02d", (i*step)%41), Rw: &gen.Rewrite{Kind: gen.This}, Restr: []gen.Restriction{{Type: "user"}}})
+		}
+		m.Types = append(m.Types, td)
+		cd := gen.Condition{Name: "big-condition", Expr: "p00 > 1"}
+		for i := 0; i < n; i++ {
+			cd.Params = append(cd.Params, gen.Param{Name: fmt.Sprintf("p%02d", (i*step)%41), Type: "int"})
+		}
+		m.Conds = append(m.Conds, cd)
+	}
 	if rapid.IntRange(0, 2).Draw(rt, "modular") > 0 {
 		mods := []string{"core", "m1", "m2", "a-b"}
 		for ti := range m.Types {
